@@ -57,4 +57,13 @@ def delete_fault_between_the_two_keys(case_text, detail):
         return False
 
 
-FEATURES = {f.__name__: f for f in [head_side_crash_inside_delete, dense_blocks_estimate, network_head_above_local_head, parallel_delete_single_refusal, delete_fault_between_the_two_keys]}
+def range_end_beyond_2_63(case_text, detail):
+    """C05/F30: GetRangeByHeight with a `to` of 2^63 or more: the range length is used as a slice capacity."""
+    d = _kv(case_text)
+    try:
+        return int(d["to"]) >= 1 << 63
+    except (KeyError, ValueError):
+        return False
+
+
+FEATURES = {f.__name__: f for f in [head_side_crash_inside_delete, dense_blocks_estimate, network_head_above_local_head, parallel_delete_single_refusal, delete_fault_between_the_two_keys, range_end_beyond_2_63]}
